@@ -266,3 +266,45 @@ func (p *Prog) namedType(pkgPath, name string) types.Type {
 	}
 	return nil
 }
+
+// globalPattern: the constant pattern a package-level *regexp.Regexp variable
+// of the module is compiled from in its package initialiser, provided nothing
+// else in the module stores to the variable.
+func (p *Prog) globalPattern(g *ssa.Global) (string, bool) {
+	if g.Pkg == nil || !strings.HasPrefix(g.Pkg.Pkg.Path(), modPath) || !strings.HasSuffix(g.Type().String(), "regexp.Regexp") {
+		return "", false
+	}
+	pat, n := "", 0
+	for _, fn := range p.Funcs {
+		for _, b := range fn.Blocks {
+			for _, instr := range b.Instrs {
+				st, ok := instr.(*ssa.Store)
+				if !ok || st.Addr != ssa.Value(g) {
+					continue
+				}
+				n++
+				if c, ok := st.Val.(*ssa.Call); ok && fn.Name() == "init" {
+					if sc := c.Common().StaticCallee(); sc != nil && sc.Pkg != nil && sc.Pkg.Pkg.Path() == "regexp" && sc.Name() == "MustCompile" {
+						if k, ok := c.Common().Args[0].(*ssa.Const); ok && constVal(k).K == KStr {
+							pat = constVal(k).S
+							continue
+						}
+					}
+				}
+				return "", false
+			}
+		}
+	}
+	return pat, n == 1 && pat != ""
+}
+
+func (p *Prog) patternOfGlobalPath(path string) (string, bool) {
+	for _, sp := range p.SPkgs {
+		for _, m := range sp.Members {
+			if g, ok := m.(*ssa.Global); ok && "g:"+g.Pkg.Pkg.Path()+"."+g.Name() == path {
+				return p.globalPattern(g)
+			}
+		}
+	}
+	return "", false
+}
